@@ -58,6 +58,8 @@ type Unit struct {
 	siteOrd  map[ssa.Instruction]string
 	truncated bool
 	deadline  time.Time
+	returns   int             // return instructions reached with the postconditions checked
+	invCover  map[string]bool // loops whose assumed invariant already has a cover query
 }
 
 type loopInfo struct {
@@ -426,6 +428,15 @@ func (st *State) checkEnsures(fr *Frame, results []SVal) {
 		if s, ok := u.retOrd[ri]; ok {
 			site = s
 		}
+	}
+	u.returns++
+	if u.invCover == nil {
+		u.invCover = map[string]bool{}
+	}
+	if !u.invCover["ret:"+site] {
+		// vacuity probe (once per return site): some return of the unit must be reachable (evaluated as a group)
+		u.invCover["ret:"+site] = true
+		st.e.addObligation(st, u, "cover", "return-reachable", site, TFalse, u.c.Props, "return", true)
 	}
 	env := st.unitEnv(fr, results)
 	if os.Getenv("GOVC_PATHS") != "" {
@@ -867,6 +878,21 @@ func (st *State) assumeInvariant(fr *Frame, li *loopInfo) {
 	env := st.loopEnv(fr, li)
 	for _, c := range li.spec.Invs {
 		st.assume(st.elabBool(env, c.E))
+	}
+	// vacuity probe (once per loop): the assumed invariant must be satisfiable together with the path so far
+	if len(li.spec.Invs) > 0 {
+		key := fmt.Sprintf("%s#%d", fr.fn.Name(), li.ordinal)
+		if st.u.invCover == nil {
+			st.u.invCover = map[string]bool{}
+		}
+		if !st.u.invCover[key] {
+			st.u.invCover[key] = true
+			site := fmt.Sprintf("loop.%d", li.ordinal)
+			if !fr.isUnit {
+				site = fr.fn.Name() + "/" + site
+			}
+			st.e.addObligation(st, st.u, "cover", "invariant-satisfiable", site, TFalse, st.u.c.Props, "loop invariant", true)
+		}
 	}
 }
 
